@@ -17,7 +17,7 @@ rc=0
 while read c p; do
   git -C /repo diff --quiet || { echo "tree not clean"; exit 2; }
   if ! git -C /repo show "$c" | git -C /repo apply -R 2>/dev/null; then echo "$c $p: reverse patch does not apply (later fix touches the same lines) - skipped"; continue; fi
-  out="$(./run.sh "$p" quick 2>&1)"; code=$?
+  out="$(VERIF_EVIDENCE_DIR=/tmp/revert-fixes-evidence ./run.sh "$p" quick 2>&1)"; code=$?
   git -C /repo checkout -- .
   sig="$(echo "$out" | grep -m1 '^violation:' | cut -c1-160)"
   echo "$c $p: exit=$code $sig"
